@@ -348,6 +348,32 @@ func (k *Kubelet) WatchPods() {
 
 // StartCCM models the cloud controller manager's node lifecycle controller: a Node whose instance
 // no longer exists at the provider is deleted (the termination finalizer, if present, still applies).
+// StartProviderGC models the cloud provider's own garbage collector (the providers built on Karpenter core run one):
+// an instance that no NodeClaim claims - neither by provider id nor by the name it was launched for - for several
+// minutes is terminated. Such instances exist when the answer of a launch was lost for good.
+func (k *Kubelet) StartProviderGC(period, minAge time.Duration) {
+	var tick func()
+	tick = func() {
+		st := k.s.store
+		claimed := map[string]bool{}
+		for _, o := range st.List(gvkNodeClaim) {
+			nc := o.(*v1.NodeClaim)
+			claimed[nc.Status.ProviderID] = true
+			claimed["name:"+nc.Name] = true
+		}
+		for _, inst := range k.e.CP.LiveInstances() {
+			if inst.Terminating || claimed[inst.ID] || claimed["name:"+inst.NodeClaim] || k.s.Now().Sub(inst.CreatedAt) < minAge {
+				continue
+			}
+			inst.Terminating, inst.TerminateAt = true, k.s.Now().Add(10*time.Second)
+			k.s.Stat("env.providergc.instance-terminated")
+			k.s.Logf("env  provider GC terminates unclaimed instance %s", inst.ID)
+		}
+		k.s.AddTimer(actorKubelet, period, "provider gc tick", false, tick)
+	}
+	k.s.AddTimer(actorKubelet, period, "provider gc tick", false, tick)
+}
+
 func (k *Kubelet) StartCCM(period time.Duration) {
 	var tick func()
 	tick = func() {
